@@ -285,6 +285,18 @@ void run_all()
   wait_go(main_go);
 }
 
+static int shared_counters[64];
+int shared_add(int idx, int delta)
+{
+  shared_counters[idx & 63] += delta;
+  return shared_counters[idx & 63];
+}
+void shared_reset()
+{
+  for (auto& c : shared_counters)
+    c = 0;
+}
+
 Result result()
 {
   return res;
